@@ -41,15 +41,17 @@ Fixpoint find_packet (ps : list Z) (i : Z) : nat :=
   | [] => O
   | p :: r => if i <? p then O else S (find_packet r (i - p))
   end.
-(** the packet decoded at position [pos] has [psize pos + 1] frames *)
-Definition psize_of (ps : list Z) (pos : nat) : nat :=
-  Z.to_nat (nth (find_packet ps (Z.of_nat pos)) ps 1 - 1).
-(** [seek i] lands at the start of the last packet, at or before the one holding [i], whose number is a
-    multiple of the granularity *)
-Definition land_of (ps : list Z) (gran : Z) (i : nat) : nat :=
+(** the scripted decoder: its state is the number of the next packet; packets may be EMPTY; [seek i] lands at the
+    start of the last packet, at or before the one holding frame [i], whose number is a multiple of the granularity;
+    decoding past the last packet is an error *)
+Definition sd_pos (ps : list Z) (k : nat) : nat := Z.to_nat (pstart ps k).
+Definition sd_size (ps : list Z) (k : nat) : nat := Z.to_nat (nth k ps 0).
+Definition sd_next (k : nat) : nat := S k.
+Definition sd_seek (ps : list Z) (gran : Z) (_ : nat) (i : nat) : nat :=
   let k := find_packet ps (Z.of_nat i) in
   let g := Z.to_nat (Z.max 1 gran) in
-  Z.to_nat (pstart ps (Nat.div k g * g)).
+  (Nat.div k g * g)%nat.
+Definition sd_err (ps : list Z) (k : nat) : bool := (length ps <=? k)%nat.
 
 Definition frame32 : Type := @frame f32.
 Definition lerp32_fast (a b : f32) (amount : f64) : f32 :=
@@ -118,12 +120,13 @@ Section Go.
   Definition st_run : static f64 frame32 f32 f32 -> list (event f64 f32 f32) -> outcome (list (obs f64 frame32)) :=
     run_static powf_t frame32 frame_zero f32 interp f64_to_f32 scale f32 vlerp (Z32 (-60)) (Z32 0)
                                   amp32 f32 vlerp pan32 fuel.
-  Definition sm_new : Z -> option (Z * Z) -> settings f64 f32 f32 -> outcome (stream f64 frame32 f32 f32) :=
+  Definition sm_new : Z -> option (Z * Z) -> settings f64 f32 f32 -> outcome (stream f64 frame32 f32 f32 nat) :=
     stream_new frame32 frame_zero f32 (Z32 (-60)) (Z32 0) f32 (Z32 0) audio
-                                  (land_of packets gran).
-  Definition sm_run : stream f64 frame32 f32 f32 -> list (event f64 f32 f32) -> outcome (list (obs f64 frame32) * bool) :=
+               nat (sd_pos packets) (sd_seek packets gran) O.
+  Definition sm_run : stream f64 frame32 f32 f32 nat -> list (event f64 f32 f32) -> outcome (list (obs f64 frame32) * bool) :=
     run_stream powf_t frame32 frame_zero f32 interp f64_to_f32 scale f32 vlerp (Z32 (-60)) (Z32 0)
-                                  amp32 f32 vlerp pan32 fuel audio (psize_of packets) (land_of packets gran) cap.
+               amp32 f32 vlerp pan32 fuel audio nat (sd_pos packets) (sd_size packets) sd_next (sd_seek packets gran)
+               (sd_err packets) cap.
 End Go.
 
 Definition source_of (audio : list frame32) : source frame32 := audio_source frame32 frame_zero audio.
